@@ -13,7 +13,7 @@ package engine
 //   VERIF_TRACE=1            print `info string vsync <point> <a> <b>` at every point
 //   VERIF_HOLD=p:a:b[,..]    at a matching point (-1 = any) print `info string vhold <point> <a> <b>` and
 //                            block until one line can be read from the FIFO named by VERIF_CTL
-//                            (each spec fires once)
+//                            (each spec fires once per process)
 //   VERIF_EXPIRE=p:a:b       at the matching point sleep until the search deadline has passed
 //   VERIF_SLEEP=p:a:b:ms     at the matching point sleep ms milliseconds (adds no synchronisation)
 //   VERIF_DEADLINE=1         print `info string vdeadline <millis> depth <d>` when `go` computed its deadline
@@ -115,15 +115,6 @@ func verifSync(point string, a, b int) {
 
 func verifDeadline(start, end time.Time, depth int) {
 	verifEnd = end
-	for _, sp := range verifHolds {
-		sp.used = false
-	}
-	for _, sp := range verifExpires {
-		sp.used = false
-	}
-	for _, sp := range verifSleeps {
-		sp.used = false
-	}
 	if VerifDeadlineFn != nil {
 		VerifDeadlineFn(start, end, depth)
 	}
